@@ -26,6 +26,9 @@ struct TraceBus {
     attempt_failed: bool,
     attempts_seen: usize,
     swallowed_this_attempt: bool,
+    /// (attempt number, kind): the transfer request of that attempt is answered with something other than its
+    /// acknowledgement (0 none, 1 a state report, 2 the ack of another operation, 3 the ack from another address)
+    nack: Option<(usize, u8)>,
     pub log: Vec<(RefMsg, Option<RefMsg>)>,
 }
 
@@ -72,6 +75,15 @@ impl SignBus for TraceBus {
                 _ => None,
             },
         };
+        let reply = match (&m, self.nack) {
+            (RefMsg::Request(a, o), Some((k, kind))) if (*o == O_RECV_CFG || *o == O_RECV_PIX) && k == self.attempts_seen => match kind {
+                0 => None,
+                1 => Some(RefMsg::Report(*a, if *o == O_RECV_CFG { S_CFG_FAIL } else { S_PIX_FAIL })),
+                2 => Some(RefMsg::Ack(*a, if *o == O_RECV_CFG { O_RECV_PIX } else { O_RECV_CFG })),
+                _ => Some(RefMsg::Ack(*a ^ 1, *o)),
+            },
+            _ => reply,
+        };
         // a transfer with zero chunks cannot be failed by swallowing: fail it at the count instead (canned only)
         if self.inner.is_none() && matches!(m, RefMsg::Count(_)) && self.attempts_seen <= self.fail_attempts {
             self.attempt_failed = true;
@@ -91,18 +103,20 @@ struct Case {
     fail_attempts: usize,
     virtual_sign: bool,
     auto: bool,
+    nack: Option<(usize, u8)>,
     label: &'static str,
 }
 
 impl Case {
     fn sig(&self) -> String {
         format!(
-            "{}|{}|{:04X}|{}|fail{}|{}|{}",
+            "{}|{}|{:04X}|{}|fail{}|nack{:?}|{}|{}",
             self.op.name(),
             TYPES[self.ty].name,
             self.own,
             self.pages.iter().map(|(w, h, b)| format!("{}x{}:{:016x}", w, h, fnv(b))).collect::<Vec<_>>().join(","),
             self.fail_attempts,
+            self.nack,
             if self.virtual_sign { "vsign" } else { "canned" },
             self.label
         )
@@ -121,6 +135,7 @@ fn check_trace(log: &[(RefMsg, Option<RefMsg>)], own: u16, op: usize, items: &[V
                 let acked = log[i].1 == Some(RefMsg::Ack(own, op));
                 i += 1;
                 if !acked {
+                    rep.count("unacknowledged_requests_seen");
                     // no acknowledgement: nothing may follow as part of this transfer
                     if i < n && matches!(log[i].0, RefMsg::Data { .. } | RefMsg::Count(_)) {
                         bad.push(("data_without_acknowledgement", format!("message #{} {} follows a request that was not acknowledged", i, log[i].0.show())));
@@ -197,7 +212,7 @@ fn check_trace(log: &[(RefMsg, Option<RefMsg>)], own: u16, op: usize, items: &[V
             _ => i += 1,
         }
     }
-    if attempts == 0 {
+    if attempts == 0 && !log.iter().any(|(m, r)| matches!(m, RefMsg::Request(a, o) if *o == op && *a == own && *r != Some(RefMsg::Ack(own, op)))) {
         bad.push(("no_transfer_attempt", "no acknowledged transfer request in the log".into()));
     }
     rep.seen("attempts_per_call", attempts as u64);
@@ -227,6 +242,7 @@ fn run_case(c: &Case, rep: &mut Report) {
         attempt_failed: false,
         attempts_seen: 0,
         swallowed_this_attempt: false,
+        nack: c.nack,
         log: vec![],
     }));
     let sign = ctl::mk_sign(tb.clone(), c.own, c.ty);
@@ -334,6 +350,7 @@ fn random_case(rng: &mut Rng, big_ok: bool) -> Case {
         fail_attempts: *rng.pick(&[0usize, 0, 0, 1, 2, 3]),
         virtual_sign: rng.bool(),
         auto: rng.bool(),
+        nack: None,
         label,
     }
 }
@@ -348,10 +365,23 @@ pub fn run(ctx: &Ctx) -> Outcome {
         for own in [0u16, 3, 0x80, 0xFFFF] {
             for fail in 0..=3 {
                 for vs in [false, true] {
-                    fixed.push(Case { ty, own, op: Op::Configure, pages: vec![], fail_attempts: fail, virtual_sign: vs, auto: false, label: "configure_all_types" });
+                    fixed.push(Case { ty, own, op: Op::Configure, pages: vec![], fail_attempts: fail, virtual_sign: vs, auto: false, nack: None, label: "configure_all_types" });
                     let np = (ty + fail) % 4;
                     let pages = (0..np).map(|_| (TYPES[ty].w, TYPES[ty].h, rand_image(&mut rng, TYPES[ty].w, TYPES[ty].h))).collect();
-                    fixed.push(Case { ty, own, op: Op::SendPages, pages, fail_attempts: fail, virtual_sign: vs, auto: own % 2 == 0, label: "send_pages_all_types" });
+                    fixed.push(Case { ty, own, op: Op::SendPages, pages, fail_attempts: fail, virtual_sign: vs, auto: own % 2 == 0, nack: None, label: "send_pages_all_types" });
+                }
+            }
+        }
+    }
+    // the request of attempt k is NOT acknowledged (none / a state report / ack of another operation / ack from another
+    // address): nothing of that attempt's transfer may follow. Attempts 2 and 3 are reached through really failing ones.
+    for ty in [5usize, 2, 8] {
+        for k in 1..=3usize {
+            for kind in 0..4u8 {
+                for vs in [false, true] {
+                    fixed.push(Case { ty, own: 3, op: Op::Configure, pages: vec![], fail_attempts: 3, virtual_sign: vs, auto: false, nack: Some((k, kind)), label: "request_not_acknowledged" });
+                    let pages = (0..2).map(|_| (TYPES[ty].w, TYPES[ty].h, rand_image(&mut rng, TYPES[ty].w, TYPES[ty].h))).collect();
+                    fixed.push(Case { ty, own: 3, op: Op::SendPages, pages, fail_attempts: 3, virtual_sign: vs, auto: vs, nack: Some((k, kind)), label: "request_not_acknowledged" });
                 }
             }
         }
@@ -359,8 +389,8 @@ pub fn run(ctx: &Ctx) -> Outcome {
     // the 16-bit offset limit: a 65 536-byte page (last offset 0xFFF0), alone and followed by a small page
     for fail in [0usize, 1] {
         let big = (65_532u32, 8u32, rand_image(&mut rng, 65_532, 8));
-        fixed.push(Case { ty: 5, own: 3, op: Op::SendPages, pages: vec![big.clone()], fail_attempts: fail, virtual_sign: false, auto: false, label: "page_of_65536_bytes" });
-        fixed.push(Case { ty: 5, own: 3, op: Op::SendPages, pages: vec![big, (30, 7, rand_image(&mut rng, 30, 7))], fail_attempts: 0, virtual_sign: true, auto: false, label: "page_of_65536_bytes" });
+        fixed.push(Case { ty: 5, own: 3, op: Op::SendPages, pages: vec![big.clone()], fail_attempts: fail, virtual_sign: false, auto: false, nack: None, label: "page_of_65536_bytes" });
+        fixed.push(Case { ty: 5, own: 3, op: Op::SendPages, pages: vec![big, (30, 7, rand_image(&mut rng, 30, 7))], fail_attempts: 0, virtual_sign: true, auto: false, nack: None, label: "page_of_65536_bytes" });
     }
     let nf = fixed.len();
     let report = run_sharded(ctx, nf + rand_shards, |shard, rep| {
@@ -381,6 +411,7 @@ pub fn run(ctx: &Ctx) -> Outcome {
         floor("calls with 1, 2 and 3 attempts", att(1) && att(2) && att(3), report.set_len("attempts_per_call")),
         floor("a 65536-byte page (last offset 0xFFF0)", report.get("pages_of_65536_bytes") >= 3 && report.maxs.get("largest_chunk_offset").copied().unwrap_or(0.0) >= 65_520.0, report.get("pages_of_65536_bytes")),
         floor("pages of a size other than the sign's own", report.get("foreign_size_pages") > 0, report.get("foreign_size_pages")),
+        floor("unacknowledged requests on attempts 1, 2 and 3", report.get("cases/request_not_acknowledged") == 144 && report.get("unacknowledged_requests_seen") >= 144, report.get("unacknowledged_requests_seen")),
         floor("both succeeding and giving-up calls", report.get("calls_succeeded") > 0 && report.get("calls_gave_up") > 0, report.get("calls_gave_up")),
     ];
     Outcome {
